@@ -143,6 +143,7 @@ pub fn base(tier: Tier) -> Profile {
         full_readback: false,
         interleave: true,
         grid: None,
+        empty_prepare: 0.0,
         probes: 0,
         probes_all: !q,
         end_on_mapfull: false,
@@ -250,6 +251,9 @@ pub fn profile(name: &str, tier: Tier) -> Option<Profile> {
             p.p_random_indexes = if q { 0.15 } else { 0.5 };
             p.p_same_config = 0.6;
             p.dump_every_op = true;
+            // "changing its metric" is one of the ops that must not touch the other indexes
+            p.p_prepare = 0.15;
+            p.empty_prepare = 0.3;
             p.probes = 10;
             p.later_ops.clear = 4;
             p.p_build_all = 0.2;
@@ -473,6 +477,7 @@ pub fn profile(name: &str, tier: Tier) -> Option<Profile> {
         "c18" => {
             p.default_cases = if q { 196 } else { 3920 };
             p.p_prepare = 0.6;
+            p.empty_prepare = 0.3;
             p.rounds = Range(2, 5);
             p.n_indexes = Mix(vec![(1, Const(1)), (2, Const(2)), (1, Const(3))]);
             p.p_same_config = 0.3;
